@@ -46,14 +46,16 @@ def plan(tier):
 def _params(rnd, fam):
     feats = []
     if fam == "gauss":
-        mu = rnd.choice([10.0, 55.5, 100.0, 1000.0, 15000.0, round(rnd.uniform(5, 5000), 2)])
+        mu = rnd.choice([10.0, 55.5, 100.0, 1000.0, 15000.0, round(rnd.uniform(5, 5000), 2), round(rnd.uniform(1e6, 9e6), 3)])
         sig = rnd.choice([0.0, 0.01 * mu, 0.1 * mu, 0.5 * mu, 2.0 * mu, round(rnd.uniform(0.1, 50), 3)])
         if sig == 0:
             feats.append("region:zero_width")
         return (mu, sig), feats
     if fam == "uniform":
-        lo = rnd.choice([0, 1, 12, 100, 500, rnd.randrange(1, 2000)])
+        lo = rnd.choice([0, 1, 12, 100, 500, rnd.randrange(1, 2000), rnd.randrange(1000001, 9999999)])
         hi = lo + rnd.choice([1, 2, 10, 60, 1000, rnd.randrange(1, 3000)])
+        if lo > 1000000:
+            feats.append("region:many_digits")  # bounds that need more than six significant digits
         if rnd.random() < 0.25:
             lo, hi = lo + round(rnd.uniform(0.1, 0.9), 2), hi + round(rnd.uniform(0.1, 0.9), 2)
             feats.append("region:nonint_params")
